@@ -29,7 +29,15 @@ RULE = ("Base58: every payload length 0..82 with every leading-zero run class (n
         "look-alike and case folding, ignored) would decode a valid payload with a matching checksum: base58 payloads of "
         "10 lengths x 3 leading-zero classes, P2PKH/P2SH addresses x 4 networks, WIF x 4, xprv/xpub x 2 networks (also "
         "through HDPrivateKey.parse / HDPublicKey.parse), segwit addresses (foreign character at the version symbol / "
-        "in the program, checksum recomputed under the reading; upper-case and look-alike substitutions anywhere), bc32.")
+        "in the program, checksum recomputed under the reading; upper-case and look-alike substitutions anywhere), bc32; "
+        "entry-point audit: S256Point.address / p2wpkh_address / p2sh_p2wpkh_address / p2tr_address on +-G, +-2G, +-3G x 5 "
+        "networks with the network by keyword / by position / omitted, every omitted network / compressed argument right "
+        "after a call with another value (5 scriptPubKey classes, RedeemScript, WitnessScript, encode_bech32_checksum, "
+        "PrivateKey), default-constructed scripts, create_p2sh_multisig with expected_addr (8 variants x 4 networks), "
+        "RedeemScript/WitnessScript.convert, Tx.find_utxos on outputs that differ in hash, template and amount, long-lived "
+        "RedeemScript/WitnessScript objects edited between address calls, p2sh_address of a segwit scriptPubKey that is used "
+        "again afterwards, valid texts of ground character classes (data part only digits / only letters, Base58Check "
+        "texts without digits), a valid checksum over no data.")
 TRUSTED = ["hashlib (sha256) — hash256 is a universally quantified function with 32-byte output in the theorems",
            "text is modelled as a list of code points; harness inputs are latin-1 strings (one code point per byte)",
            "PrivateKey.__init__ computes secret*G, which is not modelled (only its range check is)"]
@@ -1295,7 +1303,16 @@ def p_defaults(t, h, net, cmds):
               ("WitnessScript.address()", lambda: ws.address(), ref_address(3, s256, 0)),
               ("WitnessScript.p2sh_address(%r)" % name, lambda: ws.p2sh_address(name), ref_address(1, h160(b"\x00\x20" + s256), net)),
               ("WitnessScript.p2sh_address()", lambda: ws.p2sh_address(), ref_address(1, h160(b"\x00\x20" + s256), 0)),
-              ("WitnessScript.address(network=%r)" % name, lambda: ws.address(network=name), ref_address(3, s256, net))]
+              ("WitnessScript.address(network=%r)" % name, lambda: ws.address(network=name), ref_address(3, s256, net)),
+              # the same addresses by the other public route: script_pubkey() / redeem_script() first
+              ("RedeemScript.script_pubkey().address(%r)" % name, lambda: rs.script_pubkey().address(name),
+               ref_address(1, h160(raw), net)),
+              ("WitnessScript.script_pubkey().address(%r)" % name, lambda: ws.script_pubkey().address(name),
+               ref_address(3, s256, net)),
+              ("WitnessScript.script_pubkey().p2sh_address(%r)" % name, lambda: ws.script_pubkey().p2sh_address(name),
+               ref_address(1, h160(b"\x00\x20" + s256), net)),
+              ("WitnessScript.script_pubkey().redeem_script().address()", lambda: ws.script_pubkey().redeem_script().address(),
+               ref_address(1, h160(b"\x00\x20" + s256), 0))]
     if t >= 2:
         sb = ref_ser(spk_commands(t, h))
         checks += [("encode_bech32_checksum(s, %r)" % name, lambda: bech32.encode_bech32_checksum(sb, name), ref_address(t, h, net)),
@@ -1307,7 +1324,23 @@ def p_defaults(t, h, net, cmds):
         checks += [("p2sh_address(%r)" % name, lambda: obj.p2sh_address(name), ref_address(1, inner, net)),
                    ("p2sh_address()", lambda: obj.p2sh_address(), ref_address(1, inner, 0)),
                    ("address(%r) after p2sh_address" % name, lambda: obj.address(name), ref_address(t, h, net))]
-    return _checks(checks)
+    d = _checks(checks)
+    if d:
+        return d
+    # default-CONSTRUCTED scripts (no commands given): each has its own, empty command list
+    a, wa = script.RedeemScript(), script.WitnessScript()
+    a.commands.append(0x51)
+    wa.commands.append(0x52)
+    b, wb = script.RedeemScript(), script.WitnessScript()
+    e256 = hashlib.sha256(b"").digest()
+    return _checks([("RedeemScript().address(%r) (after another RedeemScript() was filled)" % name, lambda: b.address(name),
+                     ref_address(1, h160(b""), net)),
+                    ("WitnessScript().address(%r) (after another WitnessScript() was filled)" % name, lambda: wb.address(name),
+                     ref_address(3, e256, net)),
+                    ("WitnessScript().p2sh_address()", lambda: wb.p2sh_address(), ref_address(1, h160(b"\x00\x20" + e256), 0)),
+                    ("RedeemScript() + OP_1 .address()", lambda: a.address(), ref_address(1, h160(b"\x51"), 0)),
+                    ("WitnessScript() + OP_2 .address(%r)" % name, lambda: wa.address(name),
+                     ref_address(3, hashlib.sha256(b"\x52").digest(), net))])
 
 
 def p_key_defaults(secret, net):
@@ -1409,9 +1442,37 @@ def p_find_utxos(outs, net, pick, corrupt):
     if k != "value":
         return f"find_utxos({addr!r}) {got if k == 'crash' else 'rejects the valid address'}"
     want = [(txid, i, a) for i, (t2, h2, a) in enumerate(outs) if (t2, h2) == (t, h)]
-    if [tuple(x) for x in got] != want:
+    got = [tuple(x) for x in got]
+    if got != want:
+        if got == [(txid, i, a) for i, (t2, h2, a) in enumerate(outs) if h2 == h]:
+            return (f"find_utxos({addr!r}) also returns the outputs of the OTHER template with the same hash "
+                    f"(version byte of the address ignored): {got!r}, reference {want!r}")
         return f"find_utxos({addr!r}) = {got!r}, reference {want!r}"
     return None
+
+
+K_FIND_UTXOS = "K-C09-find-utxos-ignores-address-type"
+
+
+def classify(v):
+    if v.get("kind") == "prop" and v.get("name") == "find_utxos" and \
+            "also returns the outputs of the OTHER template with the same hash" in (v.get("detail", "") or ""):
+        return K_FIND_UTXOS
+    return None
+
+
+def _registered(key):
+    """is this key in KNOWN_FINDINGS.json / findings/C09.json?  (cases of a known finding are generated only then)"""
+    import json
+    import os
+    root = os.path.dirname(os.path.dirname(os.path.dirname(os.path.abspath(__file__))))
+    for path in (os.path.join(root, "KNOWN_FINDINGS.json"), os.path.join(root, "findings", PID + ".json")):
+        try:
+            if any(f.get("key") == key and f.get("status") == "known" for f in json.load(open(path)).get("findings", [])):
+                return True
+        except (OSError, ValueError):
+            pass
+    return False
 
 
 def p_charclass(sb, cls):
@@ -2242,6 +2303,21 @@ def audit_cases(ctx):
         ctx.label("audit/find-utxos")
         yield ("prop", "find_utxos", [outs, r.randrange(4), r.randrange(len(outs)), 0])
         yield ("prop", "find_utxos", [outs, r.randrange(4), r.randrange(len(outs)), r.randrange(1, 100)])
+    if _registered(K_FIND_UTXOS):
+        # (c) the SAME hash under both templates in one transaction: the P2PKH address must not match the P2SH output
+        h = ctx.rbytes(20)
+        ctx.label("audit/find-utxos-same-hash-two-templates")
+        yield ("prop", "find_utxos", [[[0, h, 5], [1, h, 7]], 0, 0, 0])
+        yield ("prop", "find_utxos", [[[0, h, 5], [1, h, 7]], 1, 1, 0])
+    # ---- (c) a valid checksum over NO data at all (six symbols after the separator: the first checksum symbol stands
+    #      where the version symbol is read), under the constant that this symbol selects
+    for hrp in ("bc", "tb", "bcrt"):
+        for const in (1, 0x2bc830a3):
+            pm = ref_polymod(ref_hrp(hrp) + [0] * 6) ^ const
+            chk = [(pm >> 5 * (5 - i)) & 31 for i in range(6)]
+            if (const == 1) == (chk[0] == 0):
+                ctx.label("audit/segwit-checksum-only")
+                yield ("prop", "text_iff", [(hrp + "1" + "".join(B32[d] for d in chk)).encode()])
     # ---- (d) character classes that random payloads do not produce (checksums ground with the reference encoder)
     made = []
     for hrp in ("bc", "tb", "bcrt"):
